@@ -371,10 +371,32 @@ def build_geom(case, surface=None, setup=True):
     return prob
 
 
+class NotConvergent(Exception):
+    """the generated aerostructural configuration has no convergent coupling (static divergence / solver failure): outside the
+    domain of every property; the case is skipped and counted, never a verdict"""
+
+
+def sane_wing(spec):
+    """keeps generated aerostructural wings structurally plausible for the dynamic pressures used (aspect ratio, taper)"""
+    spec.update(root_chord=float(np.round(max(spec["root_chord"], spec["span"] / 9.0), 3)), taper=max(spec.get("taper", 1.0), 0.5))
+    return spec
+
+
 def run(prob):
+    import openmdao.api as om
+
     with warnings.catch_warnings():
         warnings.simplefilter("ignore")
-        prob.run_model()
+        try:
+            prob.run_model()
+        except om.AnalysisError as e:
+            if "coupled" in str(e):
+                raise NotConvergent(str(e)[:200])
+            raise
+        except ValueError as e:
+            if "coupled" in str(e) and "infs or NaNs" in str(e):
+                raise NotConvergent(str(e)[:200])
+            raise
     return prob
 
 
